@@ -2,15 +2,6 @@
 // slice::binary_search_by, Vec capacity, Clone, and the filter / file-index objects that the
 // extracted functions call but that are verified in other units.
 
-// R10: the key type K is opaque; only its byte view is visible to specifications.
-#[verifier::external_body]
-pub struct KeyT { _p: u8 }
-impl KeyT {
-    pub uninterp spec fn view(&self) -> Seq<u8>;
-    #[verifier::external_body]
-    pub fn clone(&self) -> (r: KeyT) ensures r@ == self@ { unimplemented!() }
-}
-
 pub open spec fn hdr_ts(h: RecordHeader) -> u64 { h.timestamp }
 pub open spec fn hdr_deleted(h: RecordHeader) -> bool { h.flags & 1u8 == 1u8 }
 
